@@ -604,6 +604,81 @@ func (x *c12exec) run(e common.Env, p *common.Part) *c12fail {
 				return fail("duplicate-disturbs-first", "after a refused duplicate Sign at node "+fmt.Sprint(victim)+": "+w, false)
 			}
 			p.Count("held_windows", 1)
+		case "sign-duplicate-racing":
+			// two Sign calls on one topic are issued at one node at the same moment; the node's synchroniser factory (a dependency the
+			// consumer supplies) lets the first caller wait briefly for the second, so that both are inside the admission step together.
+			// Exactly one of them must be refused; the other one and the other nodes' calls must succeed.
+			if h.Mode == "silent" {
+				continue
+			}
+			s := x.signers(rng)
+			x.pick(op.Topic, s)
+			victim := s[rng.Intn(len(s))]
+			sch, isScheme := x.c.Schemes[victim].(*threshold.Scheme)
+			if !isScheme {
+				continue
+			}
+			orig := sch.SyncFactory
+			var arrivals int32
+			gate := make(chan struct{})
+			var gateOnce sync.Once
+			sch.SyncFactory = func(members []uint16, bc func([]byte), send func([]byte, uint16)) tss.Synchronizer {
+				switch atomic.AddInt32(&arrivals, 1) {
+				case 1:
+					select {
+					case <-gate:
+					case <-time.After(40 * time.Millisecond):
+					}
+				case 2:
+					gateOnce.Do(func() { close(gate) })
+				}
+				return orig(members, bc, send)
+			}
+			ctx, cancel := context.WithTimeout(context.Background(), x.dl(6000))
+			var r1, r2 callRes
+			var dup sync.WaitGroup
+			dup.Add(2)
+			go func() { defer dup.Done(); o, e := x.sign(ctx, victim, op.Topic); r1 = callRes{victim, o, e} }()
+			go func() { defer dup.Done(); o, e := x.sign(ctx, victim, op.Topic); r2 = callRes{victim, o, e} }()
+			var others []uint16
+			for _, u := range s {
+				if u != victim {
+					others = append(others, u)
+				}
+			}
+			res := x.calls(others, func(u uint16) ([]byte, error) { return x.sign(ctx, u, op.Topic) })
+			dupDone := make(chan struct{})
+			go func() { dup.Wait(); close(dupDone) }()
+			select {
+			case <-dupDone:
+			case <-time.After(time.Duration(40*x.h.Scale) * time.Second):
+				x.hung = true
+			}
+			cancel()
+			sch.SyncFactory = orig
+			if x.hung {
+				return fail("call-did-not-return", "one of two Sign calls issued together on one topic at node "+fmt.Sprint(victim)+" had not returned long after its context ended", false)
+			}
+			refused := 0
+			var winner callRes
+			for _, r := range []callRes{r1, r2} {
+				if r.err != nil && strings.Contains(r.err.Error(), "already") {
+					refused++
+				} else {
+					winner = r
+				}
+			}
+			switch {
+			case refused == 0:
+				return fail("duplicate-admitted", fmt.Sprintf("two Sign calls issued together on the same topic at node %d: neither was refused (results: %v / %v)", victim, r1.err, r2.err), false)
+			case refused == 2:
+				return fail("duplicate-disturbs-first", fmt.Sprintf("two Sign calls issued together on the same topic at node %d were both refused", victim), false)
+			}
+			res[victim] = winner
+			if w := checkSigs(res, op.Topic); w != "" {
+				return fail("duplicate-disturbs-first", "after one of two racing Sign calls at node "+fmt.Sprint(victim)+" was refused: "+w, strings.Contains(w, "deadline"))
+			}
+			p.Count("held_windows", 1)
 		case "late-replay":
 			if lastSession.topic == "" || h.Mode == "silent" {
 				continue
@@ -702,7 +777,7 @@ func genC12(rng *rand.Rand, idx int, e common.Env) c12hist {
 			}
 		} else {
 			kinds = []string{"keygen-ok", "keygen-with-foreign-traffic", "keygen-duplicate", "keygen-missing-caller", "keygen-cancel", "keygen-cancel-held", "keygen-second-sync-lost", "sign-ok", "sign-ok", "sign-too-few", "sign-cancel", "sign-cancel-held",
-				"sign-reuse-at-once", "sign-two-topics", "sign-duplicate", "late-replay", "sign-with-foreign-traffic", "keygen-and-sign-at-once"}
+				"sign-reuse-at-once", "sign-two-topics", "sign-duplicate", "sign-duplicate-racing", "late-replay", "sign-with-foreign-traffic", "keygen-and-sign-at-once"}
 		}
 		k := kinds[rng.Intn(len(kinds))]
 		if strings.HasPrefix(k, "keygen") {
@@ -711,7 +786,7 @@ func genC12(rng *rand.Rand, idx int, e common.Env) c12hist {
 		h.Ops = append(h.Ops, c12op{Kind: k, Topic: t, Arg: rng.Intn(40)})
 		// a failed / cancelled operation is followed by a successful one on the same topic: the residue test proper
 		switch k {
-		case "sign-too-few", "sign-cancel", "sign-cancel-held", "sign-duplicate":
+		case "sign-too-few", "sign-cancel", "sign-cancel-held", "sign-duplicate", "sign-duplicate-racing":
 			if h.Mode != "silent" {
 				h.Ops = append(h.Ops, c12op{Kind: "sign-ok", Topic: t})
 			}
@@ -727,7 +802,7 @@ func genC12(rng *rand.Rand, idx int, e common.Env) c12hist {
 }
 
 func unitC12(e common.Env, p *common.Part) {
-	p.Rule = "PRNG histories of 8..40 operations over 3..5 nodes and 2..4 topics on one cluster of real schemes (loud with real disc.Member, barrier, silent): successful / too-few-callers / cancelled KeyGen and Sign, cancellation with the continuation held at a verif point or inside the protocol instance's Init (between instance creation and handler registration), re-use of a topic the moment the previous call returned (continuation held after the result hand-off), two topics at once, a key generation and a signing session at once, duplicate Sign on a live topic, replay of a finished session's traffic, a key generation whose second synchronisation's traffic is lost and arrives after the call ended, foreign-node and non-member traffic during a live session; every failed or cancelled operation is followed by a successful one on the same topic; distinct key = history hash; non-trivial when the history re-uses a topic, overlaps sessions or injects late/foreign traffic"
+	p.Rule = "PRNG histories of 8..40 operations over 3..5 nodes and 2..4 topics on one cluster of real schemes (loud with real disc.Member, barrier, silent): successful / too-few-callers / cancelled KeyGen and Sign, cancellation with the continuation held at a verif point or inside the protocol instance's Init (between instance creation and handler registration), re-use of a topic the moment the previous call returned (continuation held after the result hand-off), two topics at once, a key generation and a signing session at once, duplicate Sign on a live topic, two Sign calls on one topic issued together at one node (brought into the admission step together by the consumer-supplied synchroniser factory), replay of a finished session's traffic, a key generation whose second synchronisation's traffic is lost and arrives after the call ended, foreign-node and non-member traffic during a live session; every failed or cancelled operation is followed by a successful one on the same topic; distinct key = history hash; non-trivial when the history re-uses a topic, overlaps sessions or injects late/foreign traffic"
 	p.Assumptions = append(p.Assumptions, "silent-mode histories use a fresh topic per session (re-use in silent mode is the separate sub-oracle c12silent); expected failures use short deadlines, expected successes a 6 s watchdog with a replay of the whole history at 5x deadlines before a deadline is judged")
 	n := e.Pick(64, 4000)
 	for i := 0; i < n; i++ {
